@@ -179,6 +179,10 @@ def gl_state(g0, g, td, keep, n):
         K(g) == RmAllBut(K(g0), td, n, keep),
         grp(g, keep) == MergedInto(g0, td, n, keep),
         Has(L(g), keep),
+        # membership characterisations (what callers use; proved by the same induction)
+        ForAll([x], Has(L(g), x) == And(Has(L(g0), x), Or(x == keep, Not(Has(lv.Take(td, n), x)))), patterns=[Has(L(g), x)]),
+        ForAll([x], Implies(Has(grp(g0, keep), x), Has(grp(g, keep), x)), patterns=[Has(grp(g0, keep), x)]),
+        ForAll([j, x], Implies(And(0 <= j, j < n, Has(grp(g0, At(td, j)), x)), Has(grp(g, keep), x)), patterns=[Has(grp(g0, At(td, j)), x)]),
         # leaders not yet processed are still leaders, with their original members
         ForAll([j], Implies(And(n <= j, j < Len(td)), And(Has(L(g), At(td, j)), Implies(At(td, j) != keep, grp(g, At(td, j)) == grp(g0, At(td, j))))), patterns=[At(td, j)]),
         ForAll([x], Implies(And(x != keep, Not(Has(td, x))), And(grp(g, x) == grp(g0, x), Has(L(g), x) == Has(L(g0), x))), patterns=[grp(g, x)]),
